@@ -21,7 +21,6 @@ BOUNDS = 'selection: 1-2 inputs, prevout hashes symbolic, --select in {-1,0,1,2}
 def setup(E):
     stubs.install_all(E)
     for n in ('_ZN15ECCVerifyHandleC1Ev', '_ZN15ECCVerifyHandleC2Ev', '_ZN15ECCVerifyHandleD1Ev', '_ZN15ECCVerifyHandleD2Ev'): E.stubs[n] = lambda E, st, fr, I, A: None
-    for n in ('_ZNSt8ios_base7failureB5cxx11C1EPKcRKSt10error_code', '_ZNSt8ios_base7failureB5cxx11D1Ev'): E.stubs[n] = lambda E, st, fr, I, A: None
     E.stubs['_ZSt17iostream_categoryv'] = lambda E, st, fr, I, A: 0
     E.stubs.pop('_Z6HexStrB5cxx114SpanIKhE', None)          # witness items travel through their hex text: run the real HexStr
 
